@@ -501,11 +501,24 @@ func (w *Writer) finishSection() error {
 				panic("fail on fresh block")
 			}
 		}
+		// Flush the last block of this level, so that the next level
+		// (or the reader, through the footer) covers it too.
+		if err := w.flushBlock(); err != nil {
+			return err
+		}
+		if len(w.index) >= len(idx) {
+			// Keys so long that an index block holds a single entry:
+			// further levels would never get smaller. Readers scan a
+			// multi-block top level linearly.
+			break
+		}
 	}
-	w.index = nil
 	if err := w.flushBlock(); err != nil {
 		return err
 	}
+	// The entries left over describe the top-level index blocks; they
+	// must not leak into the next section.
+	w.index = nil
 
 	blockStats := w.getBlockStats(typ)
 	blockStats.IndexBlocks = w.Stats.idxStats.Blocks - before
